@@ -104,7 +104,18 @@ def recvStepCore (st : RecvState) (ts : List String) : RecvState × List String 
     | _ => (st, ["bad-op"])
   | ["h", "persist", mode] =>
     match parseMode mode with
-    | none => (st, ["bad-op"])
+    | none =>
+      if mode.startsWith "cold:" then
+        -- cold start: persisted state brought up where these call sites were never seen (their
+        -- names get the suffix `#<nonce>`), local map lost, same host
+        let suffix : Str := ("#" ++ (mode.drop 5).toString).toUTF8.toList.map (·.toNat)
+        let pm := persistMeta s.σ
+        let (ps, _, w) := persist s.σ
+        let out1 := sortLines (delta s.σ.w w) ++ [showStack w.host.stack, "pm " ++ showMeta pm, "ps " ++ showSpans ps]
+        let pm' : PersistedMeta := pm.map fun kv => (kv.1, { kv.2 with name := kv.2.name ++ suffix })
+        let σ' := restore pm' ps [] w
+        ({ st with sys := { σ := σ', lastPm := pm', lastPs := ps } }, out1 ++ delta w σ'.w)
+      else (st, ["bad-op"])
     | some m =>
       let pm := persistMeta s.σ
       let (ps, _, w) := persist s.σ
